@@ -176,6 +176,7 @@ func (s *segment) rebuildIndex() error {
 	if err := os.Remove(s.indexPath()); err != nil && !os.IsNotExist(err) {
 		return errors.Wrap(err, "failed to remove corrupt index file")
 	}
+	crashPoint("rebuild:index-removed")
 
 	// Create a fresh index
 	var err error
@@ -186,6 +187,7 @@ func (s *segment) rebuildIndex() error {
 	if err != nil {
 		return errors.Wrap(err, "failed to create new index")
 	}
+	crashPoint("rebuild:index-created")
 
 	// Reset index position to 0 so we write from the beginning.
 	// newIndex() sets position = file size (10MB pre-allocated), but we need
@@ -244,6 +246,7 @@ func (s *segment) rebuildIndex() error {
 		if err := s.Index.writeEntries([]*entry{e}); err != nil {
 			return errors.Wrap(err, "failed to write index entry during rebuild")
 		}
+		crashPoint("rebuild:entry-written")
 
 		pos += msgSetHeaderLen + int64(size)
 	}
